@@ -87,6 +87,10 @@ register("C18", "model_checking", "E2 sched", "stateless model checking of worke
          "Every interleaving within the preemption bound (quick 1..2, thorough 2..3) of the extraction workers, the progress-reporter thread and the caller on single- and multi-folder archives, extractall and extract(targets), instantaneous and yielding callbacks, frozen and advancing clock; the recorded callback sequence is judged against the event grammar relative to the return of close().",
          "Timed waits (reporter poll, close() join) fire only at quiescence, i.e. handlers are brief relative to 1 s. Two extraction calls in one session are executed but not judged (outside the quantifier).", "DESIGN.md section 5 C18")
 
+register("C02", "exploration", "E1 explore", "exhaustive enumeration of small directory trees plus deviation-bounded choice-tree exploration of metadata/configuration, on the real writeall/extractall path",
+         "Every tree of <= 3 (thorough 4) nodes over 7 node kinds (incl. four kinds of relative symlinks) round-tripped through writeall+extractall; for six richer trees every combination of <= 2 (thorough 3) deviations over per-node modes, mtimes, name classes, arcname, dereference, default filters, password, shutil entry points, absolute source; and a sweep of 557 modification times over 1970..2100. Oracle: lstat/readlink/bytes of the extracted tree vs the source, permission bits, |delta mtime| <= 5 us.",
+         "uid 0 on tmpfs; Windows branches unreachable; dereference is not combined with links whose target contains the link.", "DESIGN.md section 5 C02")
+
 NOT_YET = {}
 
 
